@@ -113,3 +113,66 @@ func lemma_C03_SA_two_tlv(num, proto uint8, id1, at1 uint16, v1 []byte, id2, at2
 	b2, err := y.Marshal()
 	verifAssert(err == nil && len(b2) == total, "C12/SA/two-tlv-re-encodes-to-the-same-length")
 }
+
+// ---- reference-built bodies of the list-structured payloads (the receiving direction
+// of C05; the sending direction is in c03_lists.go) ----
+
+// Delete: two 4-octet SPIs
+//
+//verif:bounded exactly 2 SPIs of 4 octets
+//verif:unroll (*message.Delete).Unmarshal#loop1 3 assert
+//verif:unroll (*message.Delete).Marshal#loop1 3 assert
+func lemma_C05_dec_Delete(proto uint8, s1, s2 uint32) {
+	b := []byte{proto, 4, 0, 2, byte(s1 >> 24), byte(s1 >> 16), byte(s1 >> 8), byte(s1), byte(s2 >> 24), byte(s2 >> 16), byte(s2 >> 8), byte(s2)}
+	y := new(Delete)
+	verifAssert(y.Unmarshal(b) == nil, "C05/Delete/accepts-reference")
+	verifAssert(y.ProtocolID == proto && y.SPISize == 4 && y.NumberOfSPI == 2 && len(y.SPIs) == 2 && y.SPIs[0] == s1 && y.SPIs[1] == s2, "C05/Delete/fields-recovered")
+	b2, err := y.Marshal()
+	verifAssert(err == nil && len(b2) == 12 && b2[0] == proto && b2[1] == 4 && b2[2] == 0 && b2[3] == 2, "C12/Delete/canonical-body-re-encodes-with-the-same-header")
+	verifAssert(y.ProtocolID == proto && y.SPISize == 4 && len(y.SPIs) == 2 && y.SPIs[0] == s1 && y.SPIs[1] == s2, "C20/Delete/marshal-leaves-the-payload-unchanged")
+}
+
+// TSi / TSr: one IPv4 selector; the three reserved octets of the payload may hold
+// anything (a liberty of the sender)
+//
+//verif:bounded exactly 1 traffic selector (IPv4)
+//verif:unroll (*message.TrafficSelectorInitiator).Unmarshal#loop1 2 assert
+//verif:unroll (*message.TrafficSelectorResponder).Unmarshal#loop1 2 assert
+//verif:unroll (*message.TrafficSelectorInitiator).Marshal#loop1 2 assert
+func lemma_C05_dec_TS(r1, r2, r3, proto uint8, sp, ep uint16, sa, ea []byte) {
+	verifAssume(len(sa) == 4 && len(ea) == 4)
+	b := make([]byte, 20)
+	b[0], b[1], b[2], b[3] = 1, r1, r2, r3
+	b[4], b[5], b[6], b[7] = 7, proto, 0, 16
+	b[8], b[9], b[10], b[11] = byte(sp>>8), byte(sp), byte(ep>>8), byte(ep)
+	copy(b[12:16], sa)
+	copy(b[16:20], ea)
+	y := new(TrafficSelectorInitiator)
+	verifAssert(y.Unmarshal(b) == nil && len(y.TrafficSelectors) == 1, "C05/TSi/accepts-reference-with-any-reserved-octets")
+	verifAssert(verifSelectorEq(y.TrafficSelectors[0], false, proto, sp, ep, sa, ea), "C05/TSi/selector-recovered")
+	z := new(TrafficSelectorResponder)
+	verifAssert(z.Unmarshal(b) == nil && len(z.TrafficSelectors) == 1 && verifSelectorEq(z.TrafficSelectors[0], false, proto, sp, ep, sa, ea), "C05/TSr/selector-recovered")
+	b2, err := y.Marshal()
+	verifAssert(err == nil && len(b2) == 20 && b2[0] == 1 && b2[1] == 0 && b2[2] == 0 && b2[3] == 0 && verifSelectorLayout(b2, 4, false, proto, sp, ep, sa, ea), "C12/TSi/re-encoding-is-canonical-and-carries-the-same-selector")
+}
+
+// SA: the sender may list the transforms of a proposal in any order and set the
+// reserved octets; each transform is filed under its own type
+//
+//verif:bounded one proposal with two transforms in reverse type order (DH before ENCR)
+//verif:unroll (*message.SecurityAssociation).Unmarshal#loop1 2 assert
+//verif:unroll (*message.SecurityAssociation).Unmarshal#loop2 3 assert
+func lemma_C05_dec_SA_any_order(num, proto, r1, r2, r3 uint8, idD, idE, av uint16) {
+	b := make([]byte, 8+8+12)
+	b[0], b[1], b[2], b[3], b[4], b[5], b[6], b[7] = 0, r1, 0, 28, num, proto, 0, 2
+	b[8], b[9], b[10], b[11], b[12], b[13], b[14], b[15] = 3, r2, 0, 8, 4, r3, byte(idD>>8), byte(idD)
+	b[16], b[17], b[18], b[19], b[20], b[21], b[22], b[23] = 0, 0, 0, 12, 1, 0, byte(idE>>8), byte(idE)
+	b[24], b[25], b[26], b[27] = 0x80, 14, byte(av>>8), byte(av)
+	y := new(SecurityAssociation)
+	verifAssert(y.Unmarshal(b) == nil && len(y.Proposals) == 1, "C05/SA/accepts-reference-with-reserved-octets-and-any-transform-order")
+	p := y.Proposals[0]
+	verifAssert(p.ProposalNumber == num && p.ProtocolID == proto && len(p.DiffieHellmanGroup) == 1 && len(p.EncryptionAlgorithm) == 1 && len(p.IntegrityAlgorithm) == 0 && len(p.PseudorandomFunction) == 0 && len(p.ExtendedSequenceNumbers) == 0, "C05/SA/each-transform-filed-under-its-own-type")
+	verifAssert(p.DiffieHellmanGroup[0].TransformID == idD && !p.DiffieHellmanGroup[0].AttributePresent, "C05/SA/dh-transform-recovered")
+	e := p.EncryptionAlgorithm[0]
+	verifAssert(e.TransformID == idE && e.AttributePresent && e.AttributeFormat == 1 && e.AttributeType == 14 && e.AttributeValue == av, "C05/SA/encr-transform-and-key-length-recovered")
+}
